@@ -29,6 +29,7 @@ UNIT = {
     'flags': ['--no-standard-checks', '--bounds-check', '--pointer-check', '--div-by-zero-check',
               '--unwinding-assertions'],
     'replay_sources': ['src/error.cc'],
+    'unverified_surroundings': {'C19': ['edge_value get/set/setRaw payload copies, rangeval conversions, forest::getEdgeForValue/getValueForEdge (EV+ infinity) are not under contract'], 'C16': ['all other error raises'], 'C01': ['see U-reduce']},
     'jobs': [
         dict(name='getIntegerHandle', entry='h_getIntegerHandle', enforce='terminal__getIntegerHandle', props=['C19', 'C16']),
         dict(name='getRealHandle', entry='h_getRealHandle', enforce='terminal__getRealHandle', props=['C19']),
